@@ -10,6 +10,8 @@ import (
 	"encoding/json"
 	"flag"
 	"fmt"
+	"io"
+	"log"
 	"os"
 	"sort"
 	"strings"
@@ -308,6 +310,11 @@ func main() {
 		})
 	}
 
+	// scenario family 3: the dynamic-rules checker: construction (rule file lists/globs, failOn values) and a run
+	if *shard == 1%*nshard {
+		ruleguardScenarios(res, bound)
+	}
+
 	// scenario family 1: analysis of programs on a long-lived full set
 	infos := harness.Infos(nil)
 	harness.ApplyParams(infos, harness.TestParams)
@@ -380,5 +387,51 @@ func testdataProgs(emit func(progenum.Prog)) {
 		for _, k := range keys {
 			emit(progenum.Prog{ID: "testdata|" + name + "|" + k, Fam: "testdata", Path: "github.com/go-critic/go-critic/checkers/testdata/" + name, Files: groups[k]})
 		}
+	}
+}
+
+func ruleguardScenarios(res *result, bound int) {
+	root := os.Getenv("VERIF_ROOT")
+	if root == "" {
+		root = "/verif"
+	}
+	os.Chdir(root + "/mc") // rule files import the dsl package; it resolves through the harness module
+	fx := root + "/fixtures/rules/"
+	tsrc, err := os.ReadFile(fx + "target.go.txt")
+	if err != nil {
+		fmt.Fprintln(os.Stderr, err)
+		os.Exit(2)
+	}
+	target := harness.LoadOne(string(tsrc))
+	type rc struct{ rules, failOn string }
+	cfgs := []rc{
+		{fx + "overlap1.go," + fx + "overlap2.go", ""},
+		{fx + "overlap2.go," + fx + "overlap1.go", ""},
+		{fx + "overlap*.go", ""},
+		{fx + "overlap1.go," + fx + "overlap2.go," + fx + "overlap3.go," + fx + "validA.go", "dsl"},
+		{fx + "valid*.go," + fx + "overlap*.go", "all"},
+		{fx + "validA.go", "zzz,yyy"},
+		{fx + "validA.go," + fx + "syntaxerr.go," + fx + "badimport.go", ""},
+		{fx + "validA.go," + fx + "syntaxerr.go," + fx + "badimport.go", "import,dsl"},
+	}
+	for _, c := range cfgs {
+		c := c
+		explore(res, "ruleguard|"+c.rules[len(fx)-1:]+"|failOn="+c.failOn, bound, map[string]interface{}{"kind": "ruleguard", "rules": c.rules, "failOn": c.failOn}, func() string {
+			infos := harness.Infos([]string{"ruleguard"})
+			infos[0].Params["rules"].Value = c.rules
+			infos[0].Params["failOn"].Value = c.failOn
+			defer func() {
+				infos[0].Params["rules"].Value = ""
+				infos[0].Params["failOn"].Value = ""
+			}()
+			log.SetOutput(io.Discard)
+			defer log.SetOutput(os.Stderr)
+			set, err := harness.NewSet(infos, "")
+			if err != nil {
+				return "init error: " + err.Error()
+			}
+			d, _ := set.VisitAll(target)
+			return strings.Join(harness.DiagStrings(d), "\n")
+		})
 	}
 }
